@@ -171,8 +171,8 @@ Proof.
 Qed.
 
 (* ---- a fragment inherited through another one: its nodes are among the other's nodes ---- *)
-Lemma nodes_incl C S frs rt cov : forall f g k m lk fk c1 Lk,
-  mixin_ok g cov C S frs rt k = true ->
+Lemma nodes_incl C S frs mx rt cov : forall f g k m lk fk c1 Lk,
+  mixin_ok g cov C S frs mx rt k = true ->
   fragment_bases f S frs k = Ok lk -> In m lk ->
   lookup_frag frs k = Some fk -> collect c1 S frs rt false (fr_sel fk) = Some Lk ->
   exists fm c2 Lm, lookup_frag frs m = Some fm /\ collect c2 S frs rt false (fr_sel fm) = Some Lm /\
@@ -182,7 +182,7 @@ Proof.
   simpl in Hfb. rewrite Hlk in Hfb. apply bind_ok in Hfb. destruct Hfb as [q [Hres Hfold]].
   unfold mixin_ok in Hok. rewrite Hlk in Hok.
   apply andb_true_iff in Hok as [_ Hok].
-  destruct (sels_okM_inv _ _ _ _ _ _ _ _ _ _ Hok) as [g' [fns [ms [Eg [Hfl [_ [_ [Hmix _]]]]]]]].
+  destruct (sels_okM_inv _ _ _ _ _ _ _ _ _ _ _ Hok) as [g' [fns [ms [Eg [Hfl [_ [_ [Hmix _]]]]]]]].
   pose proof (flattenM_resolve_det _ _ _ _ _ _ _ _ _ _ Hfl Hres) as Eq. subst q. simpl in Hfold.
   destruct (flattenM_collect_mix _ _ _ _ _ _ _ _ _ _ _ Hfl Hc) as [_ Hmx].
   destruct (append_fold_In _ _ _ _ Hfold) as [_ [_ H3]].
@@ -265,10 +265,10 @@ Proof.
     change k1 with (fst (k1, v)). apply in_map, Hin.
 Qed.
 
-Lemma class_bases_In_conv m ms kept :
-  In m kept -> ms <> [] -> In (pascal_s m) (class_bases ms kept []).
+Lemma class_bases_In_conv m ms kept eb :
+  In m kept -> ms <> [] -> In (pascal_s m) (class_bases ms kept eb).
 Proof.
-  intros Hm Hne. unfold class_bases. rewrite app_nil_r. destruct ms; [congruence|].
+  intros Hm Hne. unfold class_bases. apply in_or_app. left. destruct ms; [congruence|].
   apply in_map, sorted_set_In, Hm.
 Qed.
 
@@ -291,6 +291,8 @@ Qed.
 (* ------------------------------------------------------------------------------------------- *)
 Section MixC.
   Variables (C : cfg) (S : schema) (frs : list fragdef) (F : nat) (cls : list pclass).
+  Variable mx : list string.
+  Hypothesis G0 : mx_ok cls mx = true.
   Hypothesis G1 : NoDup (map c_name cls).
   Hypothesis G3 : no_basemodel cls = true.
   Hypothesis G2 : forall fm, In fm frs -> unpack_fragment S fm None = false ->
@@ -339,24 +341,24 @@ Section MixC.
       discriminate Hno.
   Qed.
 
-  Theorem mixC_main : forall g fuel pub cn rt r sels at_ tv top out pub' k l N kv fc,
-    fuel <= F -> parse_type_def fuel C S frs pub cn r sels at_ [] tv = Ok (out, pub', false) ->
-    sels_okM g true C S frs top at_ rt r sels = true -> tv_ok rt tv ->
-    (at_ = true -> has_typename sels = true) -> table_ok cls out ->
+  Theorem mixC_main : forall g fuel pub cn rt r sels at_ eb tv top out pub' k l N kv fc,
+    fuel <= F -> parse_type_def fuel C S frs pub cn r sels at_ eb tv = Ok (out, pub', false) ->
+    sels_okM g true C S frs mx top at_ rt r sels = true -> tv_ok rt tv ->
+    (at_ = true -> has_typename sels = true) -> table_ok cls out -> harmless cls eb ->
     collect k S frs rt false sels = Some l -> incl l N -> ambC N rt kv fc ->
     class_goodC g cn kv N l.
   Proof.
     induction g as [|g IH];
-      intros fuel pub cn rt r sels at_ tv top out pub' k l N kv fc HF Hp Hok Htv Hat Htab Hcol HlN Hamb;
+      intros fuel pub cn rt r sels at_ eb tv top out pub' k l N kv fc HF Hp Hok Htv Hat Htab Heb Hcol HlN Hamb;
       [discriminate Hok|].
-    destruct (sels_okM_inv _ _ _ _ _ _ _ _ _ _ Hok) as [g' [fns [ms [Eg [Hfl [_ [Hfields [Hmix Hreach]]]]]]]].
+    destruct (sels_okM_inv _ _ _ _ _ _ _ _ _ _ _ Hok) as [g' [fns [ms [Eg [Hfl [_ [Hfields [Hmix Hreach]]]]]]]].
     inversion Eg; subst g'. clear Eg.
     destruct fuel as [|fuel']; [discriminate Hp|].
-    destruct (level_invM _ _ _ _ _ _ _ _ _ _ _ _ _ _ _ _ Hp Hfl Hat)
+    destruct (level_invM _ _ _ _ _ _ _ _ _ _ _ _ _ _ _ _ _ Hp Hfl Hat)
       as [f2 [pfl [extra [kept [Ef [Hrun [Hkept [Hrem Hout]]]]]]]].
     destruct Hamb as [[HkN [HkvN HspecN]] [HpyN Hjwf]].
     destruct (flattenM_collect_mix _ _ _ _ _ _ _ _ _ _ _ Hfl Hcol) as [Hown Hmixn].
-    assert (Hc0 : In {| c_name := cn; c_bases := class_bases ms kept []; c_fields := pfl |} out)
+    assert (Hc0 : In {| c_name := cn; c_bases := class_bases ms kept eb; c_fields := pfl |} out)
       by (rewrite Hout; left; reflexivity).
     destruct (Htab _ Hc0) as [Hl Hnb]. simpl in Hl, Hnb.
     (* every resolved mixin's class, with the nodes its fragment contributes *)
@@ -367,14 +369,14 @@ Section MixC.
       destruct (lookup_frag frs m) as [fm|] eqn:Elf; [| discriminate Hmix].
       apply andb_true_iff in Hmix as [Hmix Hokm]. apply andb_true_iff in Hmix as [Hnm Hun].
       apply negb_true_iff in Hun.
-      destruct (fr_mixins fm) eqn:Emx; [| discriminate Hnm].
+      pose proof (mx_ok_harmless _ _ _ G0 Hnm) as Hhm.
       unfold lookup_frag in Elf. pose proof (find_some _ _ Elf) as [Hfin Hfn].
       apply String.eqb_eq in Hfn.
-      destruct (G2 fm Hfin Hun) as [outm [pubm [Hrunm Hinm]]]. rewrite Emx, Hfn in Hrunm.
+      destruct (G2 fm Hfin Hun) as [outm [pubm [Hrunm Hinm]]]. rewrite Hfn in Hrunm.
       destruct (Hmixn m Hm) as [fm' [k' [lm [Elf' [Hcm Hilm]]]]].
       unfold lookup_frag in Elf'. rewrite Elf in Elf'. inversion Elf'; subst fm'.
       exists fm, k', lm. split; [reflexivity|]. split; [exact Hcm|]. split; [exact Hilm|].
-      eapply (IH F [] (pascal_s m) rt (fr_on fm) (fr_sel fm) false None false outm pubm k' lm N kv fc);
+      eapply (IH F [] (pascal_s m) rt (fr_on fm) (fr_sel fm) false (fr_mixins fm) None false outm pubm k' lm N kv fc);
         eauto.
       - left; reflexivity.
       - discriminate.
@@ -382,9 +384,10 @@ Section MixC.
       - eapply incl_tran; eauto.
       - repeat split; auto. }
     destruct (mro_with_bases2 cls cn _ (g + 2) Hl Hnb) as [pfs [Hmro [Hdec [Hownp Hname]]]].
-    { intros b Hb. destruct (class_bases_In _ _ _ Hb) as [E | [m [Hm E]]]; subst b.
+    { intros b Hb. destruct (class_bases_In _ _ _ _ Hb) as [E | [[m [Hm E]] | Hbe]]; [subst b | subst b |].
       - exists []. intros j Hj. apply mro_basemodel. lia.
-      - destruct (HB m (Hkept m Hm)) as [fm [km [lm [_ [_ [_ [pb [Hpb _]]]]]]]]. exists pb. exact Hpb. }
+      - destruct (HB m (Hkept m Hm)) as [fm [km [lm [_ [_ [_ [pb [Hpb _]]]]]]]]. exists pb. exact Hpb.
+      - exists []. intros j Hj. destruct j as [|j']; [lia|]. apply mro_empty, Heb, Hbe. }
     (* the own fields *)
     pose proof (fields_run_pf _ _ _ _ _ _ _ _ _ _ _ _ _ _ _ Hrun) as FP.
     assert (HownA : forall pf, In pf pfl ->
@@ -400,16 +403,17 @@ Section MixC.
       assert (HFF : Forall2 (field_facts C (covers (Datatypes.S n1) cls) kv) fns pfl).
       { eapply (level_facts C S frs fuel' g true cls (covers (Datatypes.S n1) cls) (fun j => jwf j = true)
                             class_covers (covers n1 cls) (mro_fields n1 cls)
-                            (sels_okM g true C S frs true) (sels_okM_ok_inv g true C S frs))
+                            (sels_okM g true C S frs mx true) mx (harmless cls)
+                            (fun eb0 => mx_ok_harmless cls mx eb0 G0) (sels_okM_ok_inv g true C S frs mx))
           with (K := map n_key N) (k := fc);
           try eassumption; try reflexivity; auto.
         - intros ll Hl' x Hx. simpl in Hl'. rewrite forallb_forall in Hl'. apply Hl', Hx.
         - intros m j _ _. apply scalar_ann_cov.
-        - intros c Hlc Hnc Hbc. destruct n1 as [|[|n3]]; try lia. apply mro_simple; auto.
+        - intros c eb0 Hlc Hnc Hbc Hh. destruct n1 as [|[|n3]]; try lia. eapply mro_harmless; eauto.
         - eauto.
         - (* nested classes *)
-          intros pb cn2 rt2 r2 sels2 at2 tvs out2 pub2 fc2 kv2 P1 P2 P3 P4 P5 P6 P7.
-          destruct (sels_okM_inv _ _ _ _ _ _ _ _ _ _ P2) as [g'' [fns2 [ms2 [_ [_ [Htop2 _]]]]]].
+          intros pb cn2 rt2 r2 sels2 at2 eb2 tvs out2 pub2 fc2 kv2 P0 P1 P2 P3 P4 P5 P6 P7.
+          destruct (sels_okM_inv _ _ _ _ _ _ _ _ _ _ _ P2) as [g'' [fns2 [ms2 [_ [_ [Htop2 _]]]]]].
           destruct (Htop2 eq_refl) as [l2' [Hc2' [Hk2 Hpy2]]].
           unfold obj_conf, conf_obj_with in P6. rewrite collect_scopes_single in P6.
           destruct (collect fc2 S frs rt2 false sels2) as [l2|] eqn:Ec2; [| discriminate P6].
@@ -418,7 +422,7 @@ Section MixC.
           simpl in P6. apply andb_true_iff in P6 as [Q1 Q2]. rewrite forallb_forall in Q1, Q2.
           simpl in P7. apply andb_true_iff in P7 as [Hnd2 Hmem2]. rewrite forallb_forall in Hmem2.
           eapply (class_goodC_covers g cn2 kv2 l2 l2).
-          + eapply (IH fuel' pb cn2 rt2 r2 sels2 at2 (Some tvs) true out2 pub2 fc2 l2 l2 kv2 fc2); eauto.
+          + eapply (IH fuel' pb cn2 rt2 r2 sels2 at2 eb2 (Some tvs) true out2 pub2 fc2 l2 l2 kv2 fc2); eauto.
             * lia.
             * right. eauto.
             * apply incl_refl.
@@ -442,13 +446,15 @@ Section MixC.
                              covers n' cls (p_ann pf) v = true)).
     { intros pf Hpf. destruct (Hdec pf Hpf) as [Hin | [b [pb [Hb [Hmb Hinb]]]]].
       - apply HownA. exact Hin.
-      - destruct (class_bases_In _ _ _ Hb) as [E | [m [Hm E]]]; subst b.
+      - destruct (class_bases_In _ _ _ _ Hb) as [E | [[m [Hm E]] | Hbe]]; [subst b | subst b |].
         + pose proof (Hmb (g + 2) (le_n _)) as E1. rewrite mro_basemodel in E1 by lia. inversion E1; subst pb.
           contradiction.
         + destruct (HB m (Hkept m Hm)) as [fm [km [lm [_ [_ [_ [pb' [Hpb' [HA' _]]]]]]]]].
           assert (pb = pb') by (specialize (Hmb (g + 2) (le_n _)); specialize (Hpb' (g + 2) (le_n _)); congruence).
           subst pb'. destruct (HA' pf Hinb) as [A1 [A2 A3]]. split; [exact A1|]. split; [exact A2|].
-          intros n' v Hn' Hv. apply A3; [lia | exact Hv]. }
+          intros n' v Hn' Hv. apply A3; [lia | exact Hv].
+        + pose proof (Hmb (g + 2) (le_n _)) as E1. replace (g + 2) with (Datatypes.S (g + 1)) in E1 by lia.
+          rewrite (mro_empty cls b (g + 1) (Heb b Hbe)) in E1. inversion E1; subst pb. contradiction. }
     exists pfs. split; [intros j Hj; apply Hmro; lia|]. split; [exact HA|].
     (* every node has a field *)
     assert (HK : forall m, In m kept -> forall fm km lm, lookup_frag frs m = Some fm ->
@@ -460,7 +466,7 @@ Section MixC.
       pose proof (collect_fuel_det _ _ _ _ _ _ _ _ _ Hcm Hcm') as El. subst lm'.
       specialize (HBb x Hx). apply in_map_iff in HBb. destruct HBb as [pfm [Ekm Hpfm]].
       assert (Hne : ms <> []) by (intro E; rewrite E in Hkept; apply (Hkept m Hm)).
-      destruct (Hname (pascal_s m) pb pfm (class_bases_In_conv _ _ _ Hm Hne) Hpb Hpfm) as [pf' [Hpf' En]].
+      destruct (Hname (pascal_s m) pb pfm (class_bases_In_conv _ _ _ _ Hm Hne) Hpb Hpfm) as [pf' [Hpf' En]].
       apply in_map_iff. exists pf'. split; [| exact Hpf'].
       destruct (HA pf' Hpf') as [A1 [A2 _]]. destruct (HAb pfm Hpfm) as [B1 [B2 _]].
       rewrite <- Ekm. eapply py_inj; eauto. congruence. }
@@ -480,9 +486,9 @@ Section MixC.
       + apply existsb_exists in Hr. destruct Hr as [k0 [Hk0 Hfb]].
         destruct (fragment_bases g S frs k0) as [lk|] eqn:Efb; [| discriminate Hfb]. apply mem_In in Hfb.
         destruct (HB k0 (Hkept k0 Hk0)) as [fk [kk [Lk [Elk [Hck [_ _]]]]]].
-        assert (Hmk : mixin_ok g true C S frs rt k0 = true)
+        assert (Hmk : mixin_ok g true C S frs mx rt k0 = true)
           by (rewrite forallb_forall in Hmix; apply Hmix, Hkept, Hk0).
-        destruct (nodes_incl C S frs rt true _ _ _ _ _ _ _ _ Hmk Efb Hfb Elk Hck) as [fm2 [c2 [Lm [E1 [E2 E3]]]]].
+        destruct (nodes_incl C S frs mx rt true _ _ _ _ _ _ _ _ Hmk Efb Hfb Elk Hck) as [fm2 [c2 [Lm [E1 [E2 E3]]]]].
         rewrite Elf in E1. inversion E1; subst fm2.
         pose proof (collect_fuel_det _ _ _ _ _ _ _ _ _ Hcm E2) as El. subst Lm.
         eapply (HK k0 Hk0 fk kk Lk); eauto.
@@ -491,19 +497,19 @@ End MixC.
 
 (* ------------------------------------------------------------------------------------------- *)
 (* Operation level                                                                              *)
-Theorem op_covers_mix C S frs F kind name sels root own pub' cls g fc j n :
+Theorem op_covers_mix C S frs F kind name mixins sels root own pub' cls g mx fc j n :
   root_type_name S kind = Ok root ->
-  op_parse F C S frs kind name [] sels = Ok (own, pub', false) ->
-  all_classes F C S frs (DOp kind name [] sels) = Ok cls ->
-  op_okM g true C S frs root sels = true ->
+  op_parse F C S frs kind name mixins sels = Ok (own, pub', false) ->
+  all_classes F C S frs (DOp kind name mixins sels) = Ok cls ->
+  op_okM g true C S frs mx mixins root sels = true -> mx_ok cls mx = true ->
   nodupb (map c_name cls) = true -> no_basemodel cls = true -> frag_no_skip F C S frs = true ->
   conf_op fc S frs root sels j = true -> jwf j = true ->
   n >= F + g + 2 ->
   covers n cls (AClass (pascal_s name)) j = true.
 Proof.
-  intros Hroot Hop Hall Hok Hnd Hnb Hfs Hconf Hwf Hn.
+  intros Hroot Hop Hall Hok Hmx Hnd Hnb Hfs Hconf Hwf Hn.
   apply nodupb_NoDup in Hnd.
-  unfold op_okM in Hok. apply andb_true_iff in Hok as [Hobj Hsels].
+  unfold op_okM in Hok. apply andb_true_iff in Hok as [Hobj Hsels]. apply andb_true_iff in Hobj as [Hobj Hmix].
   destruct (conf_op_obj _ _ _ _ _ _ Hobj Hconf) as [kv [k [Ej Hc]]]. subst j.
   destruct (all_classes_prefix _ _ _ _ _ _ Hall) as [own' [rest [Hr Ecls]]].
   simpl in Hr. rewrite Hop in Hr. simpl in Hr. inversion Hr; subst own'. clear Hr.
@@ -511,7 +517,7 @@ Proof.
   unfold op_parse in Hop. rewrite Hroot in Hop. simpl in Hop.
   assert (HF1 : F >= 1) by (destruct F; [discriminate Hop | lia]).
   pose proof (frag_runs _ _ _ _ _ _ Hall Hfs) as G2.
-  destruct (sels_okM_inv _ _ _ _ _ _ _ _ _ _ Hsels) as [g' [fns [ms [_ [_ [Htop _]]]]]].
+  destruct (sels_okM_inv _ _ _ _ _ _ _ _ _ _ _ Hsels) as [g' [fns [ms [_ [_ [Htop _]]]]]].
   destruct (Htop eq_refl) as [l' [Hc' [Hk Hpy]]].
   unfold obj_conf, conf_obj_with in Hc. rewrite collect_scopes_single in Hc.
   destruct (collect k S frs root false sels) as [l|] eqn:Ec; [| discriminate Hc].
@@ -522,11 +528,12 @@ Proof.
   destruct n as [|n']; [lia|].
   change (class_covers (covers n' cls) (mro_fields n' cls (pascal_s name)) (JObj kv) = true).
   eapply (class_goodC_covers C F cls HF1 g (pascal_s name) kv l l).
-  - eapply (mixC_main C S frs F cls Hnd Hnb G2 HF1 g F [] (pascal_s name) root root sels false None true
+  - eapply (mixC_main C S frs F cls mx Hmx Hnd Hnb G2 HF1 g F [] (pascal_s name) root root sels false mixins None true
                       own pub' k l l kv k); eauto.
     + left; reflexivity.
     + discriminate.
     + apply (table_of_incl cls Hnd Hnb), Hown.
+    + eapply mx_ok_harmless; eauto.
     + apply incl_refl.
     + split; [split; [exact Hk|]; split; [intros p Hp; apply mem_In, Q1, Hp | exact Q2]|].
       split; [apply Hpy; reflexivity | exact Hmem].
